@@ -53,6 +53,14 @@ pub struct PeerPolicy {
     pub silence: Option<(u32, Us)>,
     /// the peer sends data packets of its own: (payload size, every n-th step with traffic)
     pub peer_data: Option<(usize, u32)>,
+    /// reordering without loss: with this probability a first transmission is processed by the
+    /// peer only after 1..2 later data packets (its ACKs in between report the hole; fewer than
+    /// three of them, so a conforming sender sees no loss event)
+    pub reorder: f64,
+    /// while silent for good, the peer still emits, at this period, packets that acknowledge
+    /// nothing new and are not duplicate ACKs either: 0 = its last ACK with a window that differs
+    /// from the previous packet's, 1 = data packets of its own, 2 = both in turn
+    pub silence_noise: Option<(Us, u8)>,
 }
 
 #[derive(Clone, Debug)]
@@ -154,6 +162,10 @@ pub async fn tx_scenario(world: Arc<World>, cfg: TxCfg, case_seed: u64) -> TxOut
     let mut log_pos = 0usize;
     let mut dead_at: Option<Us> = None;
     let mut old_acks: Vec<u16> = Vec::new();
+    let mut late: Vec<(i64, usize, u32, Us)> = Vec::new();
+    let mut last_ack_sent: Option<Pkt> = None;
+    let mut next_noise: Us = 0;
+    let mut noise_count: u32 = 0;
     loop {
         // adaptive stepping: 1 ms while there is traffic, coarser when idle
         let nap = if idle_steps < 60 {
@@ -184,13 +196,24 @@ pub async fn tx_scenario(world: Arc<World>, cfg: TxCfg, case_seed: u64) -> TxOut
         let mut rng2 = rng.fork(now);
         let lose_first = pol.lose_first;
         let lose_retx = pol.lose_retx;
-        let pkts = peer.drain(|_idx, _p, nth| {
+        let reorder = pol.reorder;
+        let mut held_now: Vec<(i64, usize)> = Vec::new();
+        let pkts = peer.drain(|idx, p, nth| {
             if nth <= 1 {
+                if reorder > 0.0 && rng2.chance(reorder) {
+                    // processed later (reordered on the way), not lost
+                    held_now.push((idx, p.payload.len()));
+                    return false;
+                }
                 !rng2.chance(lose_first)
             } else {
                 !rng2.chance(lose_retx)
             }
         });
+        for (idx, len) in held_now {
+            let after = data_seen + 1 + rng2.below(2) as u32;
+            late.push((idx, len, after, now + 30 * MS));
+        }
         if pkts.is_empty() {
             idle_steps = idle_steps.saturating_add(1);
         } else {
@@ -206,6 +229,18 @@ pub async fn tx_scenario(world: Arc<World>, cfg: TxCfg, case_seed: u64) -> TxOut
                 got_data += 1;
                 data_seen += 1;
                 last_arrival = now;
+            }
+        }
+        // reordered packets turn up: after enough later packets, or 30 ms at the latest
+        let mut i = 0;
+        while i < late.len() {
+            if data_seen > late[i].2 || now >= late[i].3 {
+                let (idx, len, _, _) = late.remove(i);
+                peer.received.entry(idx).or_insert(len);
+                got_data += 1;
+                last_arrival = now;
+            } else {
+                i += 1;
             }
         }
         if let (Some((after, dur)), false) = (pol.silence, silence_done) {
@@ -308,8 +343,37 @@ pub async fn tx_scenario(world: Arc<World>, cfg: TxCfg, case_seed: u64) -> TxOut
                     for _ in 0..copies {
                         peer.send(p.clone());
                     }
+                    last_ack_sent = Some(p);
                 }
                 DueItem::Raw(p) => peer.send(p),
+            }
+        }
+        // noise in the silent phase: packets that acknowledge nothing new
+        if let (true, Some((period, kind)), Some(last)) = (in_silence && silent_until == Some(u64::MAX), pol.silence_noise, last_ack_sent.as_ref()) {
+            if now >= next_noise {
+                next_noise = now + period;
+                let mut p = last.clone();
+                p.exts.clear();
+                noise_count += 1;
+                // never a duplicate ACK in the sender's eyes (same type, number and window as the
+                // packet before): those legitimately start fast retransmit. A window that differs
+                // from the previous packet's, or a payload, makes it an ordinary packet.
+                let as_data = match kind {
+                    0 => false,
+                    1 => true,
+                    _ => noise_count % 2 == 0,
+                };
+                if as_data {
+                    p.ty = wire::ST_DATA;
+                    p.seq = peer.first_seq.wrapping_add(peer_idx as u16);
+                    p.payload = crate::app::gen_vec(pkey, peer_off, 20);
+                    peer_idx += 1;
+                    peer_off += 20;
+                    peer.next_seq = peer.first_seq.wrapping_add(peer_idx as u16);
+                }
+                p.wnd = last.wnd.saturating_add(1000 + 1000 * (noise_count % 2));
+                world.log.note("peer noise: a packet that acknowledges nothing new");
+                peer.send(p);
             }
         }
         // termination
@@ -425,6 +489,8 @@ pub fn generate(case_seed: u64, focus: TxFocus, max_total: usize) -> TxCfg {
         window: WindowMode::Const(big),
         silence: None,
         peer_data: None,
+        reorder: 0.0,
+        silence_noise: None,
     };
     match focus {
         TxFocus::Window => {
@@ -439,6 +505,11 @@ pub fn generate(case_seed: u64, focus: TxFocus, max_total: usize) -> TxCfg {
             };
             if rng.chance(0.3) {
                 policy.lose_first = *rng.pick(&[0.02, 0.1]);
+            } else if rng.chance(0.4) {
+                // reordering only: no loss event ever, the slow-start bound stays in force throughout
+                policy.reorder = *rng.pick(&[0.05, 0.2, 0.4]);
+                policy.ack = AckMode::Immediate;
+                policy.window = WindowMode::Const(big);
             }
         }
         TxFocus::Retransmit => {
@@ -448,6 +519,9 @@ pub fn generate(case_seed: u64, focus: TxFocus, max_total: usize) -> TxCfg {
                     policy.silence = Some((rng.range(0, 30) as u32, if rng.chance(0.6) { u64::MAX } else { rng.range(300, 20_000) * MS }));
                     sock.max_retransmissions = Some(*rng.pick(&[2usize, 5, 5, 9, 14]));
                     sock.remote_inactivity_timeout = Some(Duration::from_secs(3600));
+                    if rng.chance(0.5) {
+                        policy.silence_noise = Some((*rng.pick(&[37u64, 130, 900]) * MS, rng.below(3) as u8));
+                    }
                 }
                 1 => {
                     policy.sack_capable = false;
